@@ -846,8 +846,9 @@ static bool exec_built(vh::Ctx& ctx, BInst& bi, const xdb::Form& f, const Extra&
       if (miss.empty()) { satisfied = true; break; }
       if (lacking.empty()) lacking = miss;
     }
+    bool bcst = false; for (const FOp& fo : bi.ops) if (fo.kind == 1 && fo.mem.bcst > 0) bcst = true;
     if (any_form && !satisfied)
-      ctx.fail_unless_known("features-underreported:" + mn, desc + " :: every " + (pc.empty() ? std::string("legacy") : pc) + "-encoded ISA-database form of this instruction requires an extension query_features does not report (e.g. " + lacking + ")");
+      ctx.fail_unless_known(std::string("features-underreported:") + (bcst ? "broadcast:" : "") + mn, desc + " :: every " + (pc.empty() ? std::string("legacy") : pc) + "-encoded ISA-database form of this instruction requires an extension query_features does not report (e.g. " + lacking + ")");
     else if (!any_form) rare(ctx, "no_db_form_in_emitted_encoding_class", mn);
   }
   RwView v = make_view(bi, rw, x);
@@ -1071,8 +1072,12 @@ static void run_a64_list(const vh::Case& c, vh::Ctx& ctx) {
     prev = ids[i];
     taken.push_back(ids[i]);
   }
+  int nlist = 0; for (const A64Op& o : fm.ops) if (o.kind == 'r' && (o.run >= 2 || o.artificial)) nlist++;
   for (InstId id : it->second) {
-    for (int arr = 0; arr < 8; arr++) {
+    for (int arr = 0; arr < 24; arr++) {
+      // arr / 8: 0 = post-index immediate as written in the database, 1/2 = the architectural value (registers x 8 / x 16 bytes; the
+      // database lists #16/#32 for ld3/st3 where the architecture and AsmJit use #24/#48)
+      int off_mode = arr / 8;
       Operand_ ops[8]; size_t n = 0;
       for (size_t i = 0; i < fm.ops.size() && n < 6; i++) {
         const A64Op& o = fm.ops[i];
@@ -1083,7 +1088,7 @@ static void run_a64_list(const vh::Case& c, vh::Ctx& ctx) {
         } else if (o.kind == 'm') {
           a64::Gp base = a64::x(27);
           if (o.text.find("Xm") != std::string::npos) op = a64::ptr_post(base, a64::x(26));
-          else if (o.text.find("#off") != std::string::npos) { size_t q = o.text.rfind('='); int off = q != std::string::npos ? atoi(o.text.c_str() + q + 1) : 0; op = a64::ptr_post(base, off); }
+          else if (o.text.find("#off") != std::string::npos) { size_t q = o.text.rfind('='); int off = q != std::string::npos ? atoi(o.text.c_str() + q + 1) : 0; if (off_mode) off = nlist * 8 * off_mode; op = a64::ptr_post(base, off); }
           else op = a64::ptr(base);
         } else op = Imm(idx);
         ops[n++] = op;
@@ -1092,6 +1097,7 @@ static void run_a64_list(const vh::Case& c, vh::Ctx& ctx) {
       a64::Assembler a(&code);
       if (a.emit_op_array(id, ops, n) != Error::kOk) continue;
       // accepted: this is an instance of the DB form
+      if (off_mode) rare(ctx, "a64_db_postindex_offset_differs_from_architecture", fm.name);
       BaseInst inst(id);
       InstRWInfo rw; memset(&rw, 0, sizeof rw);
       if (InstAPI::query_rw_info(Arch::kAArch64, inst, ops, n, &rw) != Error::kOk) { ctx.cls("rwinfo_error"); return; }
@@ -1112,6 +1118,8 @@ static void run_a64_list(const vh::Case& c, vh::Ctx& ctx) {
           if (!rw.operand(j).has_op_flag(OpRWFlags::kConsecutive))
             ctx.fail_unless_known("consecutive-not-reported:a64:" + fm.name, desc + " :: operand #" + std::to_string(j) + " must be register(operand #" + std::to_string(i) + ")+" + std::to_string(j - i) + " by the encoding, but is not flagged kConsecutive");
       }
+      // (The database's access letters for AArch64 are derived from operand names - casp lists Ws as read-only and the new value as written - and are
+      // not used as an oracle here.)
       if (over) ctx.cls("a64_run_overconstrained_" + fm.name);
       ctx.cls("a64_list_forms_checked");
       ctx.nontrivial();
